@@ -71,6 +71,7 @@ pub fn run_enumerated(ctx: &mut Ctx, i: u64) -> Verdict {
         slow_peer: false,
         ssh_setup: Default::default(),
         abandon_close: false,
+        final_close: false,
     };
     ev!(ctx, "scenario {}/{}", kind.name(), sc.label);
     let o = run_scenario(ctx, &sc);
